@@ -844,7 +844,17 @@ impl<'a> Validator<'a> {
                         && matches!(self.peek_at(1), None | Some(b' ' | b'\t' | b'\n' | b'\r'));
                     self.advance();
                 }
-                Some(b'"') if self.at_quote_start() => {
+                // A tag is a property like an anchor: the node it decorates still
+                // follows, so `at_node_start` carries through (`k: !t [a]`).
+                Some(b'!') if self.at_node_start && self.at_quote_start() => {
+                    while !matches!(self.peek(), None | Some(b' ' | b'\t' | b'\n' | b'\r')) {
+                        self.advance();
+                    }
+                }
+                // A `"`, `'`, `[` or `{` opens a quoted scalar / flow collection only
+                // where a node begins; inside a plain scalar (`a "b`, `a [b`) it is
+                // ordinary content.
+                Some(b'"') if self.at_node_start && self.at_quote_start() => {
                     // A value scalar's continuation lines must be indented past
                     // the key (QB6E); a key/root scalar imposes no minimum here.
                     let min = if seen_value_indicator {
@@ -856,7 +866,7 @@ impl<'a> Validator<'a> {
                     self.check_after_block_quoted(multiline)?;
                     self.at_node_start = false;
                 }
-                Some(b'\'') if self.at_quote_start() => {
+                Some(b'\'') if self.at_node_start && self.at_quote_start() => {
                     let min = if seen_value_indicator {
                         self.line_indent + 1
                     } else {
@@ -896,7 +906,7 @@ impl<'a> Validator<'a> {
                     // The entry's value node follows the indicator.
                     self.at_node_start = true;
                 }
-                Some(b'[' | b'{') if self.at_quote_start() => {
+                Some(b'[' | b'{') if self.at_node_start && self.at_quote_start() => {
                     self.scan_flow()?;
                     self.check_after_top_level_flow()?;
                     self.at_node_start = false;
